@@ -189,3 +189,29 @@ def sched_plan(r, est=300):
         s["d"] = r.choice([1, 2, 3, 5])
         s["est"] = est
     return s
+
+
+def canon(x):
+    """canonical percent-encoding of a path spelling (the form the supervisor reports)"""
+    from .model import unpct
+    if x is None:
+        return None
+    return pct(unpct(x))
+
+
+def canon_case(case):
+    for op in case.get("setup", []):
+        for k in ("p", "to"):
+            if k in op:
+                op[k] = canon(op[k])
+    for st in case.get("steps", []):
+        for op in st.get("edits", []) or []:
+            for k in ("p", "to"):
+                if k in op:
+                    op[k] = canon(op[k])
+        inv = st.get("inv")
+        if inv:
+            inv["sources"] = [canon(x) for x in inv.get("sources", [])]
+            if inv.get("dest") is not None:
+                inv["dest"] = canon(inv["dest"])
+    return case
